@@ -1,10 +1,193 @@
 /-
-  Drive/World.lean — driver suite `world` (stub; to be implemented).
+  Drive/World.lean — driver suite `world` (C15): run a history of definitions and uses through the
+  `World` model configured from the GENERATED registry table, report per-step observations, the final
+  state of every class, and for every class whether its view after the history equals its view after
+  the sub-history it depends on ("defined alone").
 -/
 import TypedpyModel.Drive.Wire
+import TypedpyModel.Sem.World
+import TypedpyModel.Generated.Registries
 namespace Typedpy.Drive.World
 open Lean (Json)
+open Typedpy.Wire Typedpy.World
 
-def run (_j : Json) : Except String Json := .error "suite world not implemented"
+def cfg : Config := configOf Generated.registries
+
+def boolField (j : Json) (k : String) : Bool :=
+  match j.getObjVal? k with
+  | .ok (.bool b) => b
+  | _ => false
+
+def kindOfJson (j : Json) : Except String FieldKind := do
+  if let some x := optField j "prim" then return .prim (← x.getNat?)
+  if let some x := optField j "wrap" then
+    return .wrap (← (← j.getObjVal? "name").getStr?) (← x.getNat?)
+  if let some x := optField j "ref" then return .ref (← x.getNat?)
+  throw s!"field kind {j.compress}"
+
+def fieldOfJson (j : Json) : Except String FieldSpec := do
+  pure { name := (← (← j.getObjVal? "name").getStr?),
+         kind := (← kindOfJson (← j.getObjVal? "kind")),
+         hasDefault := boolField j "default",
+         serKey := (← (← j.getObjVal? "key").getStr?),
+         fastOk := boolField j "fastOk",
+         trustedOk := boolField j "trustedOk",
+         schemaOk := boolField j "schemaOk",
+         inlines := (← (← j.getObjVal? "inlines").getNat?) }
+
+def parentOfJson (j : Json) : Except String Parent := do
+  let c ← (← j.getObjVal? "c").getNat?
+  let names ← strList j "names"
+  match (← (← j.getObjVal? "kind").getStr?) with
+  | "inherit" => pure (.inherit c)
+  | "omit" => pure (.omit c names)
+  | "pick" => pure (.pick c names)
+  | "partial" => pure (.partialOf c)
+  | s => throw s!"parent kind {s}"
+
+def srcOfJson (j : Json) : Except String ClassSrc := do
+  let parent ← match optField j "parent" with
+    | none => pure none
+    | some p => do pure (some (← parentOfJson p))
+  let fields ← (← (← j.getObjVal? "fields").getArr?).toList.mapM fieldOfJson
+  let addProps := match j.getObjVal? "addProps" with
+    | .ok (.bool b) => some b
+    | _ => none
+  pure { name := (← (← j.getObjVal? "name").getStr?), parent := parent, fields := fields,
+         fast := boolField j "fast", addProps := addProps }
+
+def flagOfStr : String → Except String Flag
+  | "addProps" => pure .addProps
+  | "compact" => pure .compact
+  | "failFast" => pure .failFast
+  | s => throw s!"flag {s}"
+
+def argOfJson (j : Json) : Except String Arg := do
+  if let some x := optField j "prim" then return .prim (← x.getNat?) (boolField j "valid")
+  if let some x := optField j "inst" then return .inst (← x.getNat?)
+  if let some x := optField j "struct" then return .struct (← x.getNat?)
+  throw s!"arg {j.compress}"
+
+def kwArgs (j : Json) : Except String (List (String × Arg)) :=
+  match optField j "kw" with
+  | none => pure []
+  | some x => do
+    (← x.getArr?).toList.mapM fun kv => do
+      let a ← kv.getArr?
+      if a.size != 2 then throw "kw entry"
+      pure ((← a[0]!.getStr?), (← argOfJson a[1]!))
+
+/-- one harness operation = one or two model operations (the harness's `deserialize` builds an
+    instance, serializes it and deserializes the document) -/
+def opOfJson (j : Json) : Except String (List WorldOp) := do
+  let op ← (← j.getObjVal? "op").getStr?
+  match op with
+  | "setDefault" =>
+    pure [.setDefault (← flagOfStr (← (← j.getObjVal? "flag").getStr?)) (boolField j "value")]
+  | _ =>
+    let c ← (← j.getObjVal? "c").getNat?
+    let kw ← kwArgs j
+    match op with
+    | "define" => pure [.define c (← srcOfJson (← j.getObjVal? "src"))]
+    | "construct" => pure [.construct c kw]
+    | "serialize" => pure [.serialize c kw]
+    | "deserialize" => pure [.serialize c kw, .deserialize c kw]
+    | "toSchema" => pure [.toSchema c]
+    | "createSerializer" => pure [.createSerializer c]
+    | "trusted" => pure [.serialize c kw, .trustedDeserialize c kw]
+    | s => throw s!"op {s}"
+
+def strs (xs : List String) : Json := Json.arr (xs.map Json.str).toArray
+
+def wrapsJson (fs : List FieldSpec) : Json :=
+  Json.mkObj (fs.filterMap fun f => match f.kind with
+    | .wrap _ t => some (f.name, Json.num (Lean.JsonNumber.fromNat t))
+    | _ => none)
+
+/-- per-step observation; for `define` also the resolved implicit wrappers of the new class -/
+def stepJson (w' : World) (op : WorldOp) (o : Obs) : Json :=
+  let base := [("done", Json.bool o.done), ("keys", strs o.keys), ("wrote", Json.bool o.wrote),
+               ("clash", Json.bool o.clash)]
+  match op with
+  | .define c _ =>
+    let wr := match alookup c w'.classes with
+      | some e => wrapsJson e.core.fields
+      | none => Json.mkObj []
+    Json.mkObj (base ++ [("wraps", wr)])
+  | .toSchema c =>
+    let req := match alookup c w'.classes with
+      | some e => strs e.required
+      | none => Json.null
+    Json.mkObj (base ++ [("requiredAfter", req)])
+  | _ => Json.mkObj base
+
+/-- run the model operations of one harness operation; report the last one's observation -/
+def runGroup : World → List WorldOp → World × Option Json
+  | w, [] => (w, none)
+  | w, [op] => let r := stepW cfg w op; (r.1, some (stepJson r.1 op r.2))
+  | w, op :: rest => runGroup (stepW cfg w op).1 rest
+
+def runSteps : World → List (List WorldOp) → World × List Json
+  | w, [] => (w, [])
+  | w, g :: h =>
+    let r := runGroup w g
+    let rest := runSteps r.1 h
+    (rest.1, r.2.getD Json.null :: rest.2)
+
+/-- which components of the behaviour differ (the registry each is blamed on) -/
+def causes (a b : Option Behaviour) : List String :=
+  match a, b with
+  | some x, some y =>
+    (if x.fields != y.fields then ["wrapper-clash"] else []) ++
+    (if x.required != y.required || x.sigRequired != y.sigRequired || x.schemaRequired != y.schemaRequired
+     then ["required-written"] else []) ++
+    (if x.serMapper != y.serMapper then ["mapper-cache"] else []) ++
+    (if x.fastKeys != y.fastKeys then ["serializer-install"] else []) ++
+    (if x.trusted != y.trusted then ["simplicity-cache"] else []) ++
+    (if x.kwargs != y.kwargs || x.extras != y.extras || x.compact != y.compact || x.failFast != y.failFast
+     then ["flags"] else [])
+  | none, none => []
+  | _, _ => ["defined-on-one-side"]
+
+def classJson (h : List WorldOp) (wEnd : World) (closures : Json) (c : ClassId) : Json :=
+  match alookup c wEnd.classes with
+  | none => Json.null
+  | some e =>
+    let T : List ClassId := match closures.getObjVal? (toString c) with
+      | .ok (.arr a) => a.toList.filterMap fun x => x.getNat?.toOption
+      | _ => [c]
+    let Tf : ClassId → Bool := fun d => T.contains d
+    let alone := runW cfg World.initial (slice Tf h)
+    let va := view cfg wEnd c
+    let vb := view cfg alone c
+    Json.mkObj [
+      ("required", strs e.required), ("sigRequired", strs e.core.sigRequired),
+      ("kwargs", Json.bool e.core.kwargs), ("ownSerialize", Json.bool e.serializer.isSome),
+      ("created", Json.bool e.createdFast),
+      ("mapperCached", Json.bool (alookup (mkey cfg c e) wEnd.mapperCache).isSome),
+      ("fields", strs (fnames e.core.fields)),
+      ("closed", Json.bool (closed Tf h)),
+      ("interferes", Json.bool (va != vb)),
+      ("causes", strs (causes va vb))]
+
+def run (j : Json) : Except String Json := do
+  let groups ← (← (← j.getObjVal? "ops").getArr?).toList.mapM opOfJson
+  let ops := groups.flatten
+  let closures := (j.getObjVal? "closures").toOption.getD (Json.mkObj [])
+  let r := runSteps World.initial groups
+  let wEnd := r.1
+  let ids := ops.filterMap fun op => match op with | .define c _ => some c | _ => none
+  pure (Json.mkObj [
+    ("steps", Json.arr r.2.toArray),
+    ("world", Json.mkObj [("counter", Json.num (Lean.JsonNumber.fromNat wEnd.srCounter)),
+                          ("flags", Json.mkObj [("addProps", Json.bool wEnd.flags.addProps),
+                                                ("compact", Json.bool wEnd.flags.compact),
+                                                ("failFast", Json.bool wEnd.flags.failFast)])]),
+    ("classes", Json.mkObj (ids.map fun c => (toString c, classJson ops wEnd closures c))),
+    ("config", Json.mkObj [("wrapperByName", Json.bool cfg.wrapperByName),
+                           ("schemaWritesRequired", Json.bool cfg.schemaWritesRequired),
+                           ("mapperByName", Json.bool cfg.mapperByName),
+                           ("simplicityByName", Json.bool cfg.simplicityByName),
+                           ("serializerOnBase", Json.bool cfg.serializerOnBase)])])
 
 end Typedpy.Drive.World
